@@ -7,6 +7,7 @@ Property theorems only; helpers in `N2k/Lemmas/Wire06.lean`.
 -/
 import N2k.Model.Wire
 import N2k.Lemmas.Wire06
+import N2k.Props.C05
 namespace N2k.Wire
 open N2k.Straight
 
@@ -80,6 +81,28 @@ theorem C06_split_fixed (n : Nat) (ps : List Bytes) (h : ∀ p ∈ ps, p.length 
     have hp : p.length = n := h p (by simp)
     simp only [List.length_cons, List.flatten_cons, cut]
     rw [← hp, List.take_left, List.drop_left, hp, ih (fun q hq => h q (by simp [hq]))]
+
+/-- what a message's addressing looks like after a trip over a frame-level format: the PGN (for
+addressed PGNs in canonical form), source and priority as sent, the destination as sent for
+addressed (PDU1) PGNs and 255 for broadcast (PDU2) PGNs. Composition of the wire round trips
+with C05 (`build_header` is the encoder's own identifier packing). -/
+def sentFrame (pgn src dst prio : Nat) (data : Bytes) : Frame :=
+  { pgn := pgn, prio := prio, src := src, dst := if pgn / 256 % 256 < 240 then dst else 255, data := data }
+
+theorem C06_frame_message_rt (pgn src dst prio : Nat) (data : Bytes)
+    (hp : prio < 8) (hs : src < 256) (hd : dst < 256) (hpgn : pgn < 2^18)
+    (hcanon : pgn / 256 % 256 < 240 → pgn % 256 = 0) (h8 : data.length ≤ 8) :
+    decodeTcp (encodeEbyte (build_header pgn src dst prio) data) = .ok (sentFrame pgn src dst prio data) ∧
+    decodeUsb (encodeUsb (build_header pgn src dst prio) data) = .ok (sentFrame pgn src dst prio data) := by
+  have hlt : build_header pgn src dst prio < 2^32 :=
+    Nat.lt_trans (N2k.C05_build_lt pgn src dst prio hp hs hd hpgn) (by decide)
+  rw [C06_ebyte_rt _ _ hlt h8, C06_usb_rt _ _ hlt h8]
+  unfold frameOfId sentFrame
+  by_cases hpf : pgn / 256 % 256 < 240
+  · rw [N2k.C05_build_parse_pdu1 pgn src dst prio hp hs hd hpgn hpf (hcanon hpf)]
+    simp [hpf]
+  · rw [N2k.C05_build_parse_pdu2 pgn src dst prio hp hs hd hpgn (by omega)]
+    simp [hpf]
 
 -- non-vacuity
 example : decodeTcp (encodeEbyte 0x19F80123 [1, 2, 3]) = .ok (frameOfId 0x19F80123 [1, 2, 3]) := by decide +kernel
